@@ -63,6 +63,26 @@ def summaries(events, vm_prefix="vm"):
     ]
 
 
+def resolve_errors(ctx, ret):
+    """Pin down the kind of every error value that reached an observable place (return value, stored errors)."""
+    seen = []
+
+    def visit(v):
+        if isinstance(v, Agg):
+            if v.ty.endswith("execution::Error") and v.variant is None:
+                ctx.variant_of(v)
+            for k in list(v.fields):
+                x = v.fields[k]
+                if isinstance(x, Lazy) and x.ty.endswith("execution::Error"):
+                    x = ctx.as_agg(x)
+                    v.fields[k] = x
+                visit(v.fields[k])
+    visit(ret)
+    for e in ctx.events:
+        if e[0] == "store_error":
+            visit(e[1])
+
+
 def vm_names(prefix="vm"):
     """z3 names of the pre-state pieces of a lazily named VM whose front thread has been materialised."""
     t = "%s.2[0]" % prefix
